@@ -16,9 +16,7 @@ open IpcHub.Rtsp IpcHub.RtspSpec
     and then closed), the `onRequest` dispatch (PLAY answers by itself, everything else is
     answered after the switch, unknown methods get 455), the two `onPlay` guards, the
     response-before-attach order of the consumer roles, the deferred cleanup, the method
-    tokens and the status codes; `newResponse` (the only constructor of responses, called once per
-    request) copies the request's CSeq and sets the Session header to the id assigned in
-    `newSession`, and nothing else in the session files touches either header or the id. -/
+    tokens and the status codes. -/
 theorem c12_source_facts :
     IpcHub.Gen.rtspFactsUnknown = [] ∧
     cfgOk genCfg = true ∧
@@ -33,11 +31,6 @@ theorem c12_source_facts :
       ("MethodSetup", "s.onSetup", false), ("MethodRecord", "s.onRecord", false), ("MethodPlay", "s.onPlay", true)] ∧
     IpcHub.Gen.rtspDispatchDefault = "StatusMethodNotValidInThisState" ∧
     IpcHub.Gen.rtspRequestRespondsAfterSwitch = true ∧
-    IpcHub.Gen.rtspNewResponseSets = [("FieldCSeq", "req.Header.Get(FieldCSeq)"), ("FieldSession", "s.lsession")] ∧
-    IpcHub.Gen.wspNewResponseSets = [("FieldCSeq", "req.Header.Get(FieldCSeq)"), ("FieldSession", "s.lsession")] ∧
-    IpcHub.Gen.respIdentityTouched = [] ∧
-    IpcHub.Gen.newResponseCalls = [("rtsp:onRequest", 1), ("wsp:onRequest", 1)] ∧
-    genWspSid = true ∧
     IpcHub.Gen.wspDispatch = [("MethodDescribe", "s.onDescribe", false), ("MethodSetup", "s.onSetup", false),
       ("MethodPlay", "s.onPlay", false), ("MethodPause", "s.onPause", false)] ∧
     IpcHub.Gen.wspDispatchDefault = "StatusMethodNotValidInThisState" ∧
@@ -60,6 +53,20 @@ theorem c12_source_facts :
     IpcHub.Gen.statusCodes = [("StatusOK", 200), ("StatusBadRequest", 400), ("StatusForbidden", 403), ("StatusNotFound", 404),
       ("StatusInvalidParameter", 451), ("StatusMethodNotValidInThisState", 455), ("StatusUnsupportedTransport", 461),
       ("StatusInternalServerError", 500)] := by
+  decide
+
+/-- More source facts: `newResponse` (the only constructor of responses, called once per request)
+    copies the request's CSeq and sets the Session header to the id assigned in `newSession`, and
+    nothing else in the session files touches either header or the id; `onPack` hands an interleaved
+    packet of the client to the stream only while recording and drops it otherwise. -/
+theorem c12_source_responses :
+    IpcHub.Gen.onPackGuard = "s.status != statusRecording => return nil" ∧
+    IpcHub.Gen.onPackCalls = ["s.stream.WritePacket"] ∧
+    IpcHub.Gen.rtspNewResponseSets = [("FieldCSeq", "req.Header.Get(FieldCSeq)"), ("FieldSession", "s.lsession")] ∧
+    IpcHub.Gen.wspNewResponseSets = [("FieldCSeq", "req.Header.Get(FieldCSeq)"), ("FieldSession", "s.lsession")] ∧
+    IpcHub.Gen.respIdentityTouched = [] ∧
+    IpcHub.Gen.newResponseCalls = [("rtsp:onRequest", 1), ("wsp:onRequest", 1)] ∧
+    genWspSid = true := by
   decide
 
 /-- The refusal ladders of the handlers (condition, status constant, how the rung ends: the `return`
@@ -265,6 +272,33 @@ theorem c12_play_twice_witness :
     ∀ (r : Req) (e : Env), r.method = .play → respsOf (step old s r e).2 = [] := by
   intro old s r e hm
   simp [step, old, s, Sess.init, hm, genCfg, gateOfTable, IpcHub.Gen.rtspGate, statusName, gateRow, methodOfName, onPlay, respsOf]
+
+/-- A client may send interleaved frames at any time (a player's RTCP receiver reports, RFC 2326
+    §10.12): for EVERY reachable state and every frame — any channel byte, RTP header parsable or
+    not — the session of the current source tree writes nothing, keeps the connection, and keeps
+    exactly what it held; the whole state is unchanged. -/
+theorem c12_client_frames (s : Sess) (ch : Int) (hdrOk : Bool) :
+    stepInput genCfg s (.frame ch hdrOk) = (s, []) := by
+  have hf : genCfg.framesDropped = true := by decide
+  simp only [stepInput, onFrame, hf]
+  by_cases hc : s.closed = true <;> simp [hc]
+
+/-- The defect that was fixed: with the old `onPack` (every packet handed to `s.stream`, which for a
+    session that is not recording is the place-holder stream whose `WritePacket` fails) a receiver
+    report on the negotiated control channel of a PLAYING session ends it — the reference automaton
+    rejects the dialogue as `connection-lost`; with the current one it is accepted. -/
+theorem c12_player_rtcp_witness :
+    let old : Cfg := { genCfg with framesDropped := false }
+    let env : Env := { lookup := fun _ => some { sdp := 1, mc := none }, sdp := fun _ => { ok := true, medias := [(.video, "t=1".toList)] },
+                       urlNorm := fun _ => none, permPull := true, permPush := true, udpOk := true }
+    let rq (m : Method) (sp tr : String) : Input :=
+      .req { method := m, cseq := [], path := "/a".toList, setupPath := sp.toList, transport := tr.toList,
+             ctypeSdp := false, range := [], body := 0 } env
+    let ins := [rq .describe "rtsp://h:554/a" "", rq .setup "rtsp://h:554/a/t=1" "RTP/AVP/TCP;interleaved=0-1", rq .play "rtsp://h:554/a" "",
+       .frame 1 false, rq .options "rtsp://h:554/a" ""]
+    verdict .rtsp (trace old (Sess.init false []) ins) = "connection-lost" ∧
+    verdict .rtsp (trace genCfg (Sess.init false []) ins) = "ok" := by
+  decide
 
 /-- The media clause of the reference automaton has teeth: media in front of the response to the very
     first request (DESCRIBE, answered 200), or together with the 200 of a PLAY on plain RTSP, is
